@@ -2,13 +2,13 @@
 from vt import g3, runner
 
 META = {
-    "category": "proof",
+    "category": "other",
     "text": "Call-type contract (G3): the arguments of the numba kernel mutational_timescale at its call site match the kernel's declared signature (was a defect, fixed: 522e0bd); composition contract: samples rejected unless contemporary, fixed mask = samples, node times go through piecewise_scale_point_estimate with that mask, mutations at branch midpoints / node time above roots, only nodes.time and mutations.time are written. Monotonicity then follows from the C25 contract; validity from A-TS-API. Real runs in the bounded stand-in.",
     "design_ref": "DESIGN.md section 4, C37",
     "level_note": "Trusted: G3; C25's contract for piecewise_scale_point_estimate (bounded there); A-TS-API/A-TS-ORDER: documented behaviour of tskit tables (sort, build_index, compute_mutation_parents/times, tree_sequence validation, edge ordering).",
     "technique": 'contract-based verification: frame/protocol/data-flow contracts decided by symbolic path enumeration of the real AST (+ z3 where arithmetic is involved); bounded stand-in on the real code',
 }
-PLAN = {"level": "proof", "explanation": META["text"]}
+PLAN = {"level": "other", "explanation": META["text"]}
 
 
 def run(ctx):
